@@ -108,8 +108,15 @@ def check_direct(case) -> str:
     fname = case["flavour"]
     cls = g.class_by_name(fname, case["cls"]) if case.get("cls") else None
     instrs = [g.build(cls, case["vals"])] if cls else []
-    sub = Subroutine(instructions=instrs, netqasm_version=tuple(case.get("version", [0, 0])), app_id=case.get("app_id", 0))
     try:
+        if case.get("via") == "instantiate":
+            sub = Subroutine(instructions=instrs, netqasm_version=tuple(case.get("version", [0, 0])), app_id=0)
+            sub.instantiate(case.get("app_id", 0), {})
+        elif case.get("via") == "setter":
+            sub = Subroutine(instructions=instrs, netqasm_version=tuple(case.get("version", [0, 0])), app_id=0)
+            sub.app_id = case.get("app_id", 0)
+        else:
+            sub = Subroutine(instructions=instrs, netqasm_version=tuple(case.get("version", [0, 0])), app_id=case.get("app_id", 0))
         raw = bytes(sub)
     except Exception:
         return "raised"
@@ -186,6 +193,14 @@ def check_sdk(case) -> str:
                 q = Qubit(conn)
                 q.H()
                 conn.flush()
+                intended = {"app_id": v}
+            elif what == "app_id_instantiate":
+                conn = _debug_conn()
+                q = Qubit(conn)
+                q.rot_Z(n=Template("t"), d=2)
+                sub = conn.compile()
+                sub.instantiate(v, {"t": 3})
+                conn.commit_subroutine(sub)
                 intended = {"app_id": v}
             elif what in ("rot_n", "rot_d"):
                 conn = _debug_conn()
@@ -292,6 +307,9 @@ def enumerated() -> List[Any]:
                     cases.append({"route": "text", "what": what, "flavour": fname, "cls": cls.__name__, "text": PRE + text, "pos": [pos, sub], "value": v})
     for v in OUT_APP:
         cases.append({"route": "direct", "what": "app_id", "flavour": "vanilla", "cls": None, "vals": [], "app_id": v, "value": v})
+        cases.append({"route": "direct", "what": "app_id", "via": "instantiate", "flavour": "vanilla", "cls": None, "vals": [], "app_id": v, "value": v})
+        cases.append({"route": "direct", "what": "app_id", "via": "setter", "flavour": "vanilla", "cls": None, "vals": [], "app_id": v, "value": v})
+        cases.append({"route": "sdk", "what": "app_id_instantiate", "value": v})
         cases.append({"route": "text", "what": "app_id", "flavour": "vanilla", "text": f"# NETQASM 0.0\n# APPID {v}\nset R0 1", "value": v})
         cases.append({"route": "sdk", "what": "app_id", "value": v})
     for v in OUT_VER:
